@@ -74,9 +74,9 @@ fn legacy_stores() -> Vec<Legacy> {
     }
     // larger stores: more records than any page size a migration might use, consecutive keys,
     // amounts beyond 64 bits, keys beyond 32 bits
-    for n in [11u64, 12, 25, 40] {
+    for n in [11u64, 12, 25, 40, 101, 129, 250] {
         let pk: Vec<(u64, u64, u128, PS)> = (1..=n).map(|k| (k, k, if k % 5 == 0 { (1u128 << 100) + k as u128 } else { 10 + 7 * k as u128 }, statuses()[(k % 4) as usize].clone())).collect();
-        let replies: Vec<(u64, u128)> = (0..(n.min(13))).map(|i| (1_700_000_000_000_000_000 + i, 33 + i as u128)).collect();
+        let replies: Vec<(u64, u128)> = (0..(if n > 100 { n / 2 + 1 } else { n.min(13) })).map(|i| (1_700_000_000_000_000_000 + i, 33 + i as u128)).collect();
         out.push(Legacy { packets: pk, replies });
     }
     // (a sequence of u64::MAX is not reachable on a channel and would overflow the reply id of the next
